@@ -126,6 +126,31 @@ def run(ctx):
                         break
                 if found:
                     break
+    # --- the NAL form the tool writes (write_hevc_unspec62_nalu), RPUs with zero runs and 0..9 trailing zeros ---
+    from . import rpucases, specgen
+    nal_lines = []
+    nal_payloads = []
+    gen = rpucases.gen_structured(rng.fork("nal"), 250 if ctx.tier == "quick" else 6000)
+    for b, _, _ in gen:
+        core = b.rstrip(b"\x00")
+        for k in ([rng.below(10), rng.below(4)] if ctx.tier == "quick" else range(10)):
+            pl = core + b"\x00" * k
+            nal_payloads.append(pl)
+            nal_lines.append("nalu.write " + hx(b"\x7c\x01" + specgen.escape(pl)))
+    nm, ni = ctx.correspond("nalu.write (NAL form of RPUs with zero runs / trailing zeros)", nal_lines)
+    for l, o, pl in zip(nal_lines, ni, nal_payloads):
+        if not o.startswith("ok ") or o in ("ok werr", "ok wpanic"):
+            ctx.count("nal-form=" + o[:8])
+            continue
+        out = bytes.fromhex(o[3:])
+        body = out[2:]
+        ctx.count("nal-form=written/trailing-zeros-%d" % (len(pl) - len(pl.rstrip(b"\x00"))))
+        ctx.nontriv(hx(pl))
+        bad = [i for i in range(len(body) - 2) if body[i] == 0 and body[i + 1] == 0 and body[i + 2] in (0, 1, 2)]
+        if out[:2] != b"\x7c\x01" or bad or rpucases.unescape(body) != pl:
+            ctx.oracle_fail({"op": "nalu.write", "input": l.split(" ")[1], "observed": o[3:][-60:],
+                             "expected": "7c01 ++ escaped payload without 00 00 0[0-2], unescaping to the payload",
+                             "shape": "forbidden-triple" if bad else "nal-form-roundtrip"})
     ctx.evaluations += total
     ctx.count("exhaustive_strings", total)
     ctx.extra["exhaustive_max_len"] = L
